@@ -5,6 +5,12 @@ V = os.path.dirname(os.path.dirname(os.path.abspath(__file__)))
 
 CHECKS = {
 
+ 'C14': dict(
+   technique='history + differential runtime monitor: snapshot (serialize) at every stable point of generated runs, resume (deserialize) in a fresh interpreter, both driven with the same continuation and every callback/log/configuration/data record compared; negative oracle with a foreign document; ASan/UBSan build',
+   text='Exploration: documents x histories x every stable point (with 0-2 external events still queued, and with delayed sends pending) x both engines; the resumed trace must equal the original from the first processed event on; a state string of a document differing by one comment must be rejected.',
+   note='Trusted: recording driver vdrv. Resume prologue (step results before the first event) not compared. Invokers are not snapshotted in this check.',
+   ref='DESIGN.md 3/C14'),
+
  'C20': dict(
    technique='differential runtime monitor across processes on a non-sanitized build: same document/URL transformed (vxform and the real uscxml-transform binary) and interpreted in fresh processes with perturbed memory layouts (env padding, malloc tunables) and cold/warm cache files; emitted bytes and traces compared',
    text='Exploration: seeded random and hand-shaped stress documents (nested invoked machines with ids, event names with non-identifier characters) x back-ends x 3-4 processes with different layouts; any byte difference between outputs, or any difference between interpreter traces (both engines, cache cold then warm), is a violation.',
